@@ -1,14 +1,16 @@
 // C02 bounded stand-in: a built directory, reified, is exactly the map of its entries.
 //
 // Bounds (quick | thorough):
-//   fanouts {8,16,256,1024} | {8,16,32,64,128,256,512,1024};
-//   entry sets per fanout: 1 entry; random names (ascii / unicode / spaces / hex-looking prefixes)
-//     of sizes {5,60,300} x 2 draws | {5,60,300,3000} x 5 draws; murmur3 prefix-colliding names (4 sharing 21 bits,
-//     plus 3 sharing 12 bits) so that shards nest >= 2 levels for every fanout; mixed.
-//   builders: BuildUnixFSShardedDirectory(fanout), BuildUnixFSDirectory (plain; in thorough also
-//     one set of 7000 entries that crosses the 256 KiB auto-shard estimate), quickbuilder.
-//   non-members probed: fresh random names, "", every member with a prefix / suffix changed, the
-//     bare hex prefixes "0","00","000","0A".
+//
+//	fanouts {8,16,256,1024} | {8,16,32,64,128,256,512,1024};
+//	entry sets per fanout: 1 entry; random names (ascii / unicode / spaces / hex-looking prefixes)
+//	  of sizes {5,60,300} x 2 draws | {5,60,300,3000} x 5 draws; murmur3 prefix-colliding names (4 sharing 21 bits,
+//	  plus 3 sharing 12 bits) so that shards nest >= 2 levels for every fanout; mixed.
+//	builders: BuildUnixFSShardedDirectory(fanout), BuildUnixFSDirectory (plain; in thorough also
+//	  one set of 7000 entries that crosses the 256 KiB auto-shard estimate), quickbuilder.
+//	non-members probed: fresh random names, "", every member with a prefix / suffix changed, the
+//	  bare hex prefixes "0","00","000","0A".
+//
 // Oracle: the input name->link map itself. Seeded by VERIF_SEED.
 package c02
 
@@ -159,7 +161,10 @@ func TestBounded(t *testing.T) {
 
 	var sets [][]string
 	var labels []string
-	add := func(label string, names []string) { sets = append(sets, vp.Dedup(names)); labels = append(labels, label) }
+	add := func(label string, names []string) {
+		sets = append(sets, vp.Dedup(names))
+		labels = append(labels, label)
+	}
 	add("one", []string{"a"})
 	for _, n := range sizes {
 		for trial := 0; trial < vp.Pick(2, 5); trial++ {
